@@ -188,7 +188,7 @@ def isReadInput (lines : List Str) : Bool :=
   | some l =>
     match pySplit l with
     | [] => false
-    | w :: _ => lower w == "read".toList
+    | w :: _ => lower w == ['r', 'e', 'a', 'd']
 
 /-- text of a line in front of a `$` comment -/
 def beforeDollar (l : Str) : Str := l.takeWhile (· != '$')
@@ -203,7 +203,7 @@ def parseRead (lines : List Str) : Option Str :=
   let text : Str := data.foldr (fun l acc => l ++ ' ' :: acc) []
   let ws := (pySplit (text.map (fun c => if c == '=' then ' ' else c))).filter (· != ['&'])
   match ws with
-  | [r, f, name] => if lower r == "read".toList && lower f == "file".toList then some name else Option.none
+  | [r, f, name] => if lower r == ['r', 'e', 'a', 'd'] && lower f == ['f', 'i', 'l', 'e'] then some name else Option.none
   | _ => Option.none
 
 /-! ## `input_syntax_reader.py` -/
@@ -310,7 +310,7 @@ def messageLoop : List Str → List Str → List Str → List Event × List Str
 def readFrontMatters : List Str → List Event × List Str
   | [] => ([], [])
   | l0 :: rest =>
-    if startsWith (upper l0) "MESSAGE:".toList then messageLoop rest [rstrip l0] [l0.drop 9]
+    if startsWith (upper l0) ['M', 'E', 'S', 'S', 'A', 'G', 'E', ':'] then messageLoop rest [rstrip l0] [l0.drop 9]
     else ([.title l0], rest)
 
 /-- a file system: what `open(path, "rb").read()` gives, `none` = `FileNotFoundError` -/
